@@ -6,9 +6,13 @@
    (Negotiate.v: which codec / type / fragment size is chosen for which test outcomes, following
    src/client.c) and the ALPHABET COVERAGE of the source's test patterns against the relay family
    of Relay.v, lifted to "every payload survives" with the codec round-trip theorems of C07.
-   NOT proved (validated by the correspondence and system runs of checks/c11.py only): the
-   retry / time-out sequencing of the handshake (handshake_waitdns, attempts per test, late
-   replies), the lazy-mode and raw-UDP sub-handshakes, and that the character-level outcomes
+   The retry / time-out sequencing of the handshake (handshake_waitdns, attempts per test, late and
+   unfitting replies, the order of the steps of client_handshake) has a model of its own since round 6
+   (Handshake.v, tied to the real functions by scripted replies in checks/c06.py); C11_test_sequencing at
+   the end of this file states what the decision logic above assumes of it: a test is the evaluation of the
+   first fitting non-empty reply, or of "no reply" after three silent attempts.
+   NOT proved (validated by the correspondence and system runs of checks/c11.py only): the raw-UDP
+   sub-handshake, the composition of whole-handshake scripts with the relay family, and that the character-level outcomes
    `bounce` / `downcheck` / `probe` describe what the real messages do (host-name dots, type
    letters, MX/SRV splitting); answer sizes enter C11_frag_sound through the hypothesis
    C09_size_monotone (property C09) and are proved here only for NULL/PRIVATE.
@@ -22,6 +26,7 @@ From Coq Require Import List NArith ZArith Arith Bool Lia.
 From Iodine Require Import Generated.SrcConsts Base Codec CodecProofs Hostname DnsName DnsMsg Relay Negotiate NegotiateProofs.
 From Iodine Require Server ServerAuthDefs ServerAuthFinal.
 From Iodine Require Import Startup StartupProofs.
+From Iodine Require Import Handshake HandshakeProofs.
 Import ListNotations.
 Local Open Scope N_scope.
 
@@ -285,3 +290,52 @@ Theorem C11_forced_settings :
      s_autofrag (csettings_of opts) = true /\ s_fragsize (csettings_of opts) = 3072%Z /\ s_raw (csettings_of opts) = true).
 Proof. exact (conj csettings_inv (conj lazy_off_last (conj m_last no_m_no_r))). Qed.
 Print Assumptions C11_forced_settings.
+
+(* ------------------------------------------------------------------------------------------ *)
+(* C11_test_sequencing: the link between the sequencing model of the handshake (Handshake.v: retries,
+   time-outs, which datagram is taken for the reply) and the decision logic above, which treats a
+   test as a function of "the reply".  For each of the three kinds of test (upstream pattern,
+   downstream / EDNS0 / query-type check string, fragment-size probe):
+   - when the next event is a reply that fits the query just sent (DNS id and command letter) and is
+     not empty, the test's result is the evaluation of exactly these bytes, one query was sent and
+     exactly this event consumed;
+   - when three attempts pass in silence the result is the evaluation of "no reply", after three
+     queries.
+   (A probe reply that fragsize_check reads as "keep checking" -- BADIP, an ack for another size --
+   does not end the attempt; the prompt clause is stated for the replies that do.) *)
+Theorem C11_test_sequencing :
+  (forall pat s it buf r, prompt_reply s 122 90 cap_full it buf ->
+     hs_upenctest pat s (it :: r) = (upenctest_eval pat (Some buf), send 122 s, r)) /\
+  (forall pat s r,
+     hs_upenctest pat s (IT :: IT :: IT :: r) = (upenctest_eval pat None, send 122 (send 122 (send 122 s)), r)) /\
+  (forall s it buf r, prompt_reply s 121 89 cap_full it buf ->
+     hs_downenctest s (it :: r) = (downenctest_eval (Some buf), send 121 s, r)) /\
+  (forall s r,
+     hs_downenctest s (IT :: IT :: IT :: r) = (downenctest_eval None, send 121 (send 121 (send 121 s)), r)) /\
+  (forall proposed s it buf r, prompt_reply s 114 82 cap_term it buf ->
+     probe_of (fragsize_check buf proposed) = true ->
+     hs_probe proposed s (it :: r) = (probe_eval (Some buf) proposed, send 114 s, r)) /\
+  (forall proposed s r,
+     hs_probe proposed s (IT :: IT :: IT :: r) = (probe_eval None proposed, send 114 (send 114 (send 114 s)), r)).
+Proof.
+  split; [exact upenctest_prompt |].
+  split; [exact upenctest_silent |].
+  split; [exact downenctest_prompt |].
+  split; [exact downenctest_silent |].
+  split; [exact probe_prompt | exact probe_silent].
+Qed.
+Print Assumptions C11_test_sequencing.
+
+(* non-vacuity of the prompt clause: a NULL answer to a 'y' query carrying the check string, delivered with the id
+   and command letter of the query just sent, is a prompt reply, and the downstream test evaluates to true on it *)
+Definition ex_y_reply : list N := [0; 0; 132; 0; 0; 1; 0; 1; 0; 0; 0; 0; 5; 121; 97; 97; 97; 113; 1; 116; 7; 101; 120; 97; 109; 112; 108; 101; 3; 99; 111; 109; 0; 0; 10; 0; 1; 192; 12; 0; 10; 0; 1; 0; 0; 0; 0; 0; 48; 0; 0; 0; 0; 255; 255; 255; 255; 85; 85; 85; 85; 170; 170; 170; 170; 129; 99; 200; 210; 199; 124; 178; 23; 95; 79; 206; 201; 73; 45; 82; 33; 97; 169; 113; 32; 37; 179; 6; 115; 230; 216; 68; 48; 121; 80; 87; 191]%N.
+Example ex_prompt_reply :
+  let s0 := hs_init 1000 16 0%Z 0%Z true 32 [] in
+  prompt_reply s0 121 89 cap_full (ID 2 ex_y_reply) src_DOWNCODECCHECK1 /\
+  hs_downenctest s0 [ID 2 ex_y_reply; IT] = (true, send 121 s0, [IT]).
+Proof.
+  split.
+  - exists 2, ex_y_reply. split; [reflexivity |].
+    split; [vm_compute; reflexivity |]. split; [vm_compute; discriminate |]. split; vm_compute; reflexivity.
+  - vm_compute; reflexivity.
+Qed.
